@@ -6,7 +6,7 @@ from props.shared import ao, atomic, A, AO, slot_waiter, slot_waker
 EXPLANATION = ("R-SLOT (register-then-recheck / publish-then-take) on Park.wait_co and CancelImpl.co; R-ORDER inside "
                "park_timeout (token consumed first, kernel spin before arming, result consumed after); R-MO on Park.state / "
                "wait_kernel; condition-variable discipline of ThreadPark; R-WHO provenance of the Timeout/Canceled results")
-EXPLANATION_2 = ('Park token: check_park answers !state.swap(false) (fast path `false` only behind the token), flag encodings of Park/SyncBlocker, ignore_cancel stores !b and yield_back checks exactly when enabled, the armed timer handle is kept and a linked handle goes to the timer thread, Drop for Park waits for wait_kernel, nothing runs after the nested self-wake; ThreadPark waits only without token and leaves only with token or timeout; Blocker/SyncBlocker/FastBlocker forwarding and cancellation-point wiring; AtomicOption::store stores Some(arg)')
+EXPLANATION_2 = ('Park token: check_park answers !state.swap(false) (fast path `false` only behind the token), flag encodings of Park/SyncBlocker, ignore_cancel stores !b and yield_back checks exactly when enabled, the armed timer handle is kept and a linked handle goes to the timer thread, Drop for Park waits for wait_kernel, nothing runs after the nested self-wake; ThreadPark waits only without token and leaves only with token or timeout; Blocker/SyncBlocker/FastBlocker forwarding and cancellation-point wiring; AtomicOption::store stores Some(arg); every un-timed thread::park() of may is re-armed by a loop on a condition (F35)')
 NOT_DECIDED = "absence of lost wake-ups over all interleavings (the Dekker shape is necessary, not sufficient); spurious wake-ups; fairness; elapsed time"
 CONFIGS_QUICK = ["default"]
 CONFIGS_THOROUGH = ["default", "nosteal", "bare"]
@@ -47,8 +47,12 @@ def check(ctx):
     slot_waiter(ctx, SUB, Call(re.escape(C) + "::set_co"), Call(re.escape(C) + "::is_canceled"),
                 call_true(re.escape(C) + "::is_canceled"), Call(re.escape(C) + "::cancel"),
                 "cancel-slot", "Park::subscribe (cancel registration)", "is_canceled() is true")
-    ctx.order(SUB, ao("store", P + ".wait_co"), Call(re.escape(C) + "::set_co"), "publish-co-before-cancel-registration",
-              "the coroutine is in wait_co before the cancel side is given a handle to that slot", rule="R-SLOT")
+    _fs = ctx.prog.fn(SUB)
+    if _fs is not None and shared.recheck_takes_own_slot(ctx, _fs):
+        ctx.ob("R-SLOT", SUB, "publish-co-before-cancel-registration", True, "the re-check takes the coroutine out of wait_co itself: the registration does not have to follow the publication", _fs.where(), nontrivial=False)
+    else:
+        ctx.order(SUB, ao("store", P + ".wait_co"), Call(re.escape(C) + "::set_co"), "publish-co-before-cancel-registration",
+                  "the coroutine is in wait_co before the cancel side is given a handle to that slot (the re-check delivers a raced cancel through cancel(), which consumes the registration first)", rule="R-SLOT")
     slot_waker(ctx, C + "::cancel", atomic("fetch_or", C + ".state"), ao("take", C + ".co"), "cancel", "CancelImpl::cancel")
     ctx.must_follow(C + "::cancel", atomic("fetch_or", C + ".state"), Call(r"may::cancel::CancelIo::cancel|<.* as may::cancel::CancelIo>::cancel", transitive=False), "cancel-always-proceeds",
                     "cancel() always goes on to wake the target after setting the bit, also when the bit was already set: the subscribers' own re-check calls cancel() with the bit set "
@@ -279,3 +283,4 @@ def check(ctx):
     shared.atomic_option_rules(ctx)
     ctx.import_rules("C08", r"^encode/|^decode/")
     ctx.import_rules("C15", r"^consume-after:")
+    shared.thread_park_in_loop(ctx)
